@@ -134,6 +134,13 @@ Theorem C13_error_numerics : forall client name v ix ch chn t p d,
   cmd_error_reply client (InvalidModeParam t ch p d) = err_invalidmodeparam client t ch p d.
 Proof. intros. repeat split. Qed.
 
+(* EVERY LINE THE SERVER EMITS IS ONE CRLF-TERMINATED MESSAGE: what the encoder writes for any list of LF-free lines
+   (each shorter than the receiving codec's limit) - line, CR, LF - is framed by the same codec into exactly those
+   lines, in order, nothing left over; also for lines that contain or end in CR *)
+Theorem C13_encode_decode : forall ls, Forall (fun l => nolf l /\ (length l < max_len)%nat) ls ->
+  feed [] (concat (List.map encode ls)) = (List.map FLine ls, []).
+Proof. exact decode_encode. Qed.
+
 End C13.
 
 Print Assumptions C13_tokens_wellformed.
@@ -153,3 +160,4 @@ Print Assumptions C13_error_numerics.
 Print Assumptions C13_segmentation_invariant.
 Print Assumptions C13_overlong_not_executed.
 Print Assumptions C13_received_lines_have_no_lf.
+Print Assumptions C13_encode_decode.
